@@ -74,6 +74,13 @@ def field_configs():
     return cfgs
 
 
+def _numtext(v):
+    """the text a user types for the number v"""
+    if isinstance(v, float):
+        return repr(v)
+    return str(v)
+
+
 def field_cases(run, rng, quick):
     """Real indexes over each field configuration; range searches judged by QuerySem on ranks."""
     from whoosh import fields, query
@@ -143,6 +150,8 @@ def field_cases(run, rng, quick):
                 qs = []
                 for _ in range(12 if quick else 60):
                     ka, kb = rng.choice(universe), rng.choice(universe)
+                    if rng.random() < 0.2:
+                        kb = ka           # a one-point interval (empty when a bound is exclusive)
                     if ka > kb:
                         ka, kb = kb, ka
                     a, b = unkey[ka], unkey[kb]
@@ -156,6 +165,13 @@ def field_cases(run, rng, quick):
                     try:
                         obs.append({"kind": "ids", "path": "%s/step%d %s" % (name, step, cls.__name__),
                                     "ids": sorted(int(d) for d in s.docs_for_query(q))})
+                        # the same interval as the query parser hands it to the field (FieldType.parse_range)
+                        if name != "datetime":
+                            q2 = ftype.parse_range("num", _numtext(a) if haslo else None, _numtext(b) if hashi else None,
+                                                   loex, hiex)
+                            if q2 is not None:
+                                obs.append({"kind": "ids", "path": "%s/step%d parse_range" % (name, step),
+                                            "ids": sorted(int(d) for d in s.docs_for_query(q2))})
                         # sorting by the field must follow the same order (values present)
                         r = s.search(q, limit=None, sortedby="num") if getattr(ftype, "sortable", False) else None
                     except Exception as ex:
